@@ -18,6 +18,7 @@ class State:
         self.denoms = []      # z3 terms assumed non-zero (every executed symbolic division)
         self.denom_keys = set()
         self.axioms = []
+        self.zero_div = None  # optional hook(den z3 term) -> True if the divisor is zero on this path (decided by forking)
         self.context = None   # callable returning the current path constraints (used for sign tests of factors)
         self.unify_queries = 0
         self.floor_n = 0
@@ -169,8 +170,13 @@ def inv(a, _t=True):
         r2 = mul(r, r, False)
         r.tan = {k: neg(mul(v, r2, False), False) for k, v in a.tan.items()}
     return r
+class DivByZero(Exception):
+    def __init__(self, num): self.num = num
 def div(a, b, _t=True):
     a = lift(a); b = lift(b)
+    if ST.zero_div is not None and not b.is_const():
+        # policy 'fork': decide whether this divisor is zero on the current path (IEEE result then) instead of assuming it is not
+        if ST.zero_div(b): raise DivByZero(a)
     if b.is_const() and not (_t and b.tan):
         c = b.const_value()
         if c == 0: raise ZeroDivisionError('exact division by zero')
